@@ -888,6 +888,20 @@ void op_complement_local(const Step& s) {
 	api_end();
 }
 
+// A call the library REJECTS (parameters that select nothing: a default-constructed ReduceParam / SimParam).  Rejection by a
+// std::exception is the expected outcome; the point of the step is what comes after it: an operation that was turned down half-way
+// must not leave anything behind that a later, ordinary call on any automaton of the process trips over.
+void op_rejected(const Step& s) {
+	ETH& a = H(s, 0); long kind = mod(s.arg(1), 2);
+	api_begin(); api_site(kind == 0 ? "et_rejected:reduce" : "et_rejected:sim");
+	try {
+		if (kind == 0) { VATA::ReduceParam rp; ET r = a.aut->Reduce(rp); }
+		else { VATA::SimParam sp; sp.SetNumStates(a.model.states().size()); auto rel = a.aut->ComputeSimulation(sp); }
+	} catch (const std::exception&) { count(c_notimpl_thrown); }
+	api_end();
+	after_mutation(s, "et_rejected");
+}
+
 void op_witness(const Step& s) {
 	ETH& a = H(s, 0); TA ma = a.model; int al = a.alpha;
 	api_begin();
@@ -1341,7 +1355,7 @@ void register_expl_ops() {
 	register_op("et_reduce", op_reduce); register_op("et_complement", op_complement); register_op("et_complement_local", op_complement_local); register_op("et_witness", op_witness);
 	register_op("et_reindex", op_reindex); register_op("et_reindex_into", op_reindex_into);
 	register_op("et_collapse", op_collapse); register_op("et_transl_syms", op_transl_syms);
-	register_op("et_twist", op_twist); register_op("et_sim", op_sim); register_op("et_incl", op_incl); register_op("et_incl_all", op_incl_all);
+	register_op("et_twist", op_twist); register_op("et_rejected", op_rejected); register_op("et_sim", op_sim); register_op("et_incl", op_incl); register_op("et_incl_all", op_incl_all);
 	register_op("et_repeat", op_repeat); register_op("et_dump", op_dump);
 	register_abort_hook(abort_client);
 	register_final_hook(final_check);
